@@ -595,7 +595,7 @@ def make_strategy_classes():
                     else:
                         if pre:
                             w.safe(pre, w, self, market, act, order)
-                        out = target.place_order(order)
+                        out = target.place_order(order, force=bool(act[2])) if len(act) > 2 else target.place_order(order)
                 elif k == "NOP":
                     out = "nop"
                 elif k == "W":
